@@ -314,19 +314,18 @@ def validate(ctx, trace_path, prefixes, label, timeout=3000, heap="8g", per_sign
     d = vlib.prepare_spec_dir(ctx, "tv-" + label)
     os.symlink(os.path.abspath(trace_path), os.path.join(d, "trace.ndjson"))
     mod, cfg = vlib.write_model(d, TRACE, TRACE + "_tv", dict(TV_CONSTS, StopOn=json.dumps(stop)), spec="TraceSpec",
-                                invariants=drift, constraints=["Report"])
+                                constraints=["Report"])
     r = vlib.tlc(ctx, d, mod, cfg, workers=min(vlib.NCPU, 8), timeout=timeout, heap=heap)
+    if not r.ok:
+        raise vlib.Infra("TLC failed on trace validation %s:\n%s" % (label, vlib.tail_errors(r.out)))
     found = []
     for m in re.finditer(r'^<<"VIOL", "(\w+)", (\d+), (\d+)>>$', r.out, re.M):
         found.append((m.group(1), int(m.group(2)), int(m.group(3)), ""))
-    if not r.ok:
-        if r.violated in drift and r.trace_states:
-            l0 = re.search(r"^/\\ l0 = (\d+)", r.trace_states[0], re.M)
-            ln = re.search(r"^/\\ l = (\d+)", r.trace_states[-1], re.M)
-            dm = re.search(r'^/\\ dmsg = "(.*)"', r.trace_states[-1], re.M)
-            found.append((r.violated, int(l0.group(1)), int(ln.group(1)), dm.group(1) if dm else ""))
-        else:
-            raise vlib.Infra("TLC failed on trace validation %s:\n%s" % (label, vlib.tail_errors(r.out)))
+    for m in re.finditer(r'^<<"DRIFT", "(\w+)", (\d+), (\d+), "(.*)">>$', r.out, re.M):
+        found.append((m.group(1), int(m.group(2)), int(m.group(3)), m.group(4)))
+    missing_d = [n for n in drift if 'Drift("%s"' % n not in spec_txt]
+    if missing_d:
+        raise vlib.Infra("StmtTrace!Report does not evaluate %s" % missing_d)
     by_start = {s: e for (s, e) in spans}
     nviol = 0
     drifts = []
